@@ -85,6 +85,8 @@ func DecodedBitStreamParser_decode(bytes []byte) (*common.DecoderResult, error) 
 
 	for mode != Mode_PDA_ENCODE && bits.Available() > 0 {
 		var e error
+		// every segment but Base 256 appends ISO-8859-1 bytes; the text is UTF-8
+		start, latin1 := len(result), mode != Mode_BASE256_ENCODE
 		if mode == Mode_ASCII_ENCODE {
 			mode, result, resultTrailer, e = decodeAsciiSegment(bits, result, resultTrailer, fnc1Positions)
 		} else {
@@ -108,6 +110,9 @@ func DecodedBitStreamParser_decode(bytes []byte) (*common.DecoderResult, error) 
 		}
 		if e != nil {
 			return nil, e
+		}
+		if latin1 {
+			result = latin1ToUTF8(result, start)
 		}
 	}
 	if len(resultTrailer) > 0 {
@@ -138,6 +143,21 @@ func DecodedBitStreamParser_decode(bytes []byte) (*common.DecoderResult, error) 
 	}
 
 	return common.NewDecoderResultWithSymbologyModifier(bytes, string(result), byteSegments, "", symbologyModifier), nil
+}
+
+// latin1ToUTF8 re-encodes the ISO-8859-1 bytes b[from:] as UTF-8.
+func latin1ToUTF8(b []byte, from int) []byte {
+	for i := from; i < len(b); i++ {
+		if b[i] >= 0x80 {
+			tail := append([]byte{}, b[i:]...)
+			b = b[:i]
+			for _, c := range tail {
+				b = append(b, string(rune(c))...)
+			}
+			break
+		}
+	}
+	return b
 }
 
 // decodeAsciiSegment See ISO 16022:2006, 5.2.3 and Annex C, Table C.2
